@@ -177,6 +177,31 @@ def _gen_direct(rng) -> dict:
     }
 
 
+def gen_clash(rng, mode: str) -> dict:
+    """Two DIFFERENT files with the same name from different directories inside ONE staged field's nested value (plus a
+    repeat of one of them), for the given copy mode."""
+    name = rng.choice(["out.txt", "res", "data.nii.gz", "a b.txt", "x.", ".hidden"])
+    d1, d2 = rng.sample(["n1", "n2", "n3"], 2)
+    cls = "TextFile" if name.endswith(".txt") and rng.random() < 0.3 else "File"
+    sets = [{"cls": cls, "paths": [f"{d1}/{name}"]}, {"cls": cls, "paths": [f"{d2}/{name}"]}]
+    if rng.random() < 0.5:
+        sets.append({"cls": "Directory", "paths": [f"n3/{rng.choice(F.DIR_NAMES)}x"]})
+    leaves = [{"o": 0}, {"o": 1}, {"o": rng.choice([0, 1])}] + ([{"o": 2}] if len(sets) > 2 else []) + [{"a": rng.choice(F.ATOMS)}]
+    rng.shuffle(leaves)
+    shape = rng.choice(["l", "t", "d", "nested"])
+    if shape == "d":
+        v = {"d": [[{"a": f"k{i}"}, c] for i, c in enumerate(leaves)]}
+    elif shape == "nested":
+        v = {"l": [leaves[0], {"t": leaves[1:3]}, {"d": [[{"a": "k"}, {"l": leaves[3:]}]]}]}
+    else:
+        v = {shape: leaves}
+    fields = [{"name": "f0", "value": v, "mode": mode, "coll": rng.choice(["any", "siblings", "adjacent"]), "typed": True}]
+    if rng.random() < 0.4:
+        fields.append({"name": "f1", "value": {"a": rng.choice([0, 3, "s", None])}, "mode": "any", "coll": "any", "typed": rng.random() < 0.5})
+    return {"op": "stage", "via": "direct", "sets": sets, "objs": list(range(len(sets))), "fields": fields, "table": [],
+            "dest_root": "cache", "dest": "cache"}  # fmt: skip
+
+
 def gen_public(rng) -> dict:
     use_mounts = rng.random() < 0.4
     dirs = F.SRC_DIRS if use_mounts else F.SRC_DIRS[:3]
@@ -286,6 +311,8 @@ def oracle(case, root, dest, err, values, src_objs, created) -> tuple[bool, str]
             sel = oracle_selection(case, root, dest, f, s)
             left = res is src or sorted(map(str, res.fspaths)) == sorted(map(str, src.fspaths))  # (an equal object's result)
             kind = F.fs_kind(sorted(src.fspaths), sorted(res.fspaths), left)
+            if kind in ("missing", "broken-sym", "source-missing") or not all(os.path.exists(p) for p in res.fspaths):
+                return False, f"staged entry {sorted(F.rel(p, root) for p in res.fspaths)} does not exist ({kind})"
             if not sel & {"leave": 1, "hard": 2, "sym": 4, "copy": 8}[kind]:
                 return False, f"{s['paths']} staged by '{kind}' which copy_mode={f['mode']} (with the mounts) does not allow"
             if type(res) is not type(src):
@@ -391,10 +418,13 @@ def finish(ctx, case, root, dest, before, err, res_values, src_objs, calls, repo
     if calls is not None:
         impl["copies"] = [
             {"src": sorted(F.rel(p, root) for p in c["self"].fspaths), "dst": sorted(F.rel(p, root) for p in c["out"].fspaths),
-             "op": F.fs_kind(sorted(c["self"].fspaths), sorted(c["out"].fspaths), c["out"] is c["self"])}
+             "op": c["op"]}
             for c in calls if "out" in c
         ]  # fmt: skip
-    spec_ok, why = oracle(case, root, dest, err, res_values, src_objs, created if err is None else None)
+    try:
+        spec_ok, why = oracle(case, root, dest, err, res_values, src_objs, created if err is None else None)
+    except OSError as e:  # whatever cannot be observed is a failed observation of the property, not a harness crash
+        spec_ok, why = False, f"staged files cannot be inspected: {core.exc_tag(e)}"
     ex = sorted({str(p) for o in src_objs for p in o.fspaths} | {str(dest / b) for b in before})
     mcase = {**case, "fields": [{**f, "truthy": _truthy(f["value"])} for f in case["fields"]]}
     if calls is not None:
@@ -537,6 +567,10 @@ def correspondence(ctx):
     if any(f["id"] == "D50" for f in ctx.known()):
         fails = bool(d50) and all((not r["spec_ok"]) and r["impl"]["err"] == "FileExistsError" for r in d50)
         ctx.finding("D50", fails, "; ".join(r["why"] for r in d50) if d50 else "witness missing from corpus")
+    for rep in range(ctx.pick(2, 12)):  # same name from two directories in one field, under EVERY copy mode
+        for mode in MODE_NAMES:
+            runs.append(run_direct(ctx, gen_clash(ctx.rng, mode), n)); n += 1  # noqa: E702
+            ctx.count("forced-clash-in-one-field")
     for _ in range(ctx.pick(220, 3000)):
         runs.append(run_direct(ctx, gen_direct(ctx.rng), n)); n += 1  # noqa: E702
     for _ in range(ctx.pick(8, 120)):
@@ -547,7 +581,7 @@ def correspondence(ctx):
 def search(ctx):
     n = 100000
     for i in range(ctx.pick(800, 5000)):
-        c = gen_direct(ctx.rng)
+        c = gen_clash(ctx.rng, ctx.rng.choice(MODE_NAMES)) if i % 3 == 0 else gen_direct(ctx.rng)
         r = run_direct(ctx, c, n + i)
         if not r["spec_ok"] and not d50_match(c):
             ctx.judge(c, r["impl"], None, False, what=r["why"])
